@@ -19,7 +19,8 @@ pub struct Chunked {
 }
 
 pub fn merged<T: Uni>(c: &Chunked) -> T {
-    gen::run_merge_tree(c.xs.len(), &c.cuts, &c.merges, |a, b| c.xs[a..b].iter().collect::<T>(), |l: &mut T, r: &T| l.merge(r))
+    // chunk [a, b) is summarised through construction path (a + b) mod 4: collect by reference, add loop, extend, collect by value
+    gen::run_merge_tree(c.xs.len(), &c.cuts, &c.merges, |a, b| build_uni::<T>(&c.xs[a..b], a + b), |l: &mut T, r: &T| l.merge(r))
 }
 
 pub fn classify_chunks(c: &Chunked, o: &mut Obs) -> usize {
